@@ -468,6 +468,35 @@ func init() {
 		copy(out, r)
 		return out
 	})
+	// randomness: fixed bytes (listed as a stub; no property here depends on random values)
+	fill := func(in *Interp, fr *frame, fn *ssa.Function, args []Value) Value {
+		b := args[len(args)-1].(Slice)
+		for i := range b.A {
+			in.store(&b.A[i], ConstBV(8, uint64(0x42+i)))
+		}
+		return tuple(ConstBV(64, uint64(len(b.A))), nilErr())
+	}
+	reg("crypto/rand.Read crypto/internal/sysrand.Read math/rand.Read", fill)
+	reg("(crypto/internal/rand.reader).Read (*crypto/internal/rand.reader).Read", fill)
+	reg("github.com/google/uuid.New github.com/google/uuid.Must", func(in *Interp, fr *frame, fn *ssa.Function, args []Value) Value {
+		if fn.Name() == "Must" {
+			return args[0]
+		}
+		out := make(Array, 16)
+		for i := range out {
+			out[i] = ConstBV(8, uint64(0x10+i))
+		}
+		out[6] = ConstBV(8, 0x40)
+		return out
+	})
+	reg("github.com/google/uuid.NewRandom", func(in *Interp, fr *frame, fn *ssa.Function, args []Value) Value {
+		out := make(Array, 16)
+		for i := range out {
+			out[i] = ConstBV(8, uint64(0x10+i))
+		}
+		out[6] = ConstBV(8, 0x40)
+		return tuple(out, nilErr())
+	})
 	reg("strconv.Itoa", func(in *Interp, fr *frame, fn *ssa.Function, args []Value) Value {
 		t := bv(args[0])
 		if t.IsConst() {
